@@ -443,4 +443,27 @@ def extra_obligations(w, tier, seed):
         whyb = 'constructors %d, capabilities=%s, appends %d, later writes %s' % (len(ctor), caps, len(apps), rewr)
     out.append(_ob('scan/sql/compile_sql_as_unit_group/flags', 'compile_sql_as_unit_group: every unit is built with capabilities=sql_unit.capabilities, never rewritten, and appended to the group',
                    ok_b, where=whyb, undecided=('not found' in whyb)))
+    # volatility of a SELECT: the two clauses the contract of __infer_select_stmt could not pin (solver undecided on the position arithmetic) as a shape obligation --
+    # ORDER BY keys and WITH bindings contribute by RE-INFERENCE of their expressions: they are put into `components`, and the only value returned is
+    # _common_volatility(components, env).  (The volatility recorded next to a WITH binding counts DML as Stable and a reference to a bound view as Immutable:
+    # folding that in instead makes `with u := (insert ..) select u` Stable, and calls of such a function are never recorded as modifying.)
+    fn, _ = repo.find_def('edb/edgeql/compiler/inference/volatility.py', '__infer_select_stmt')
+    rets = [ast.unparse(n.value) for n in ast.walk(fn) if isinstance(n, ast.Return) and n.value is not None]
+    exts = [ast.unparse(n.args[0]) for n in ast.walk(fn) if isinstance(n, ast.Call) and ast.unparse(n.func) == 'components.extend' and n.args]
+    def from_field(f_, first_of_pair):
+        for n in ast.walk(fn):
+            if isinstance(n, ast.Call) and ast.unparse(n.func) == 'components.extend' and n.args and isinstance(n.args[0], (ast.GeneratorExp, ast.ListComp)):
+                g = n.args[0]
+                if len(g.generators) == 1 and not g.generators[0].ifs and ast.unparse(g.generators[0].iter) == 'ir.' + f_:
+                    t = g.generators[0].target
+                    if first_of_pair: return isinstance(t, ast.Tuple) and len(t.elts) == 2 and isinstance(g.elt, ast.Name) and ast.unparse(t.elts[0]) == g.elt.id
+                    return isinstance(t, ast.Name) and ast.unparse(g.elt) == t.id + '.expr'
+        return None
+    ob_ok = from_field('orderby', False); bd_ok = from_field('bindings', True)
+    uses_recorded = any(isinstance(n, (ast.GeneratorExp, ast.ListComp, ast.For)) and 'ir.bindings' in ast.unparse(n) and not any(isinstance(c, ast.Call) and ast.unparse(c.func) == 'components.extend' and any(x is n for x in ast.walk(c)) for c in ast.walk(fn))
+                        for n in ast.walk(fn))
+    ok_v = rets == ['_common_volatility(components, env)'] and ob_ok is True and bd_ok is True
+    bad_v = (rets != ['_common_volatility(components, env)'] and bool(rets)) or ob_ok is False or bd_ok is False or (bd_ok is None and uses_recorded)
+    out.append(_ob('scan/volatility/select-orderby-bindings-reinferred', '__infer_select_stmt: ORDER BY keys and WITH binding expressions are put into `components` and the result is _common_volatility(components, env) alone',
+                   ok_v, where='returns %s; extends %s' % (rets, exts), undecided=not bad_v, kind='shape'))
     return out
